@@ -432,6 +432,9 @@ func Record(args []string) {
 					k = left
 				}
 				left -= k
+				if style == 2 && len(sc.Sched)%8 == 7 {
+					sc.Sched = append(sc.Sched, rstep{N: 0}) // a read that delivers nothing yet (hundreds over the stream)
+				}
 				sc.Sched = append(sc.Sched, rstep{N: k})
 			}
 		}
